@@ -53,18 +53,28 @@ type genFile struct {
 	lines []lineInfo
 }
 
-func genTable(rng *rand.Rand, kind string) genFile {
+func genTable(rng *rand.Rand, kind string) genFile { return genTableN(rng, kind, 2+rng.Intn(7)) }
+
+// genTableN: tables of a given number of records (long ones: a damaged line may come after any number
+// of well-formed records and still be a complete line inside the header)
+func genTableN(rng *rand.Rand, kind string, rows int) genFile {
 	delim := byte(',')
 	if kind == "tsv" {
 		delim = '\t'
 	}
 	cols := 2 + rng.Intn(4)
-	rows := 2 + rng.Intn(7)
 	term := []string{"\n", "\r\n"}[rng.Intn(2)]
 	final := rng.Intn(2) == 0
 	raggedAt := -1
 	if rng.Intn(4) == 0 {
 		raggedAt = rng.Intn(rows)
+	}
+	if rows > 50 {
+		cols = 2 + rng.Intn(2)
+		raggedAt = -1
+		if rng.Intn(3) > 0 {
+			raggedAt = rows/2 + rng.Intn(rows-rows/2) // in the second half
+		}
 	}
 	oneCol := rng.Intn(12) == 0
 	var b strings.Builder
@@ -90,7 +100,10 @@ func genTable(rng *rand.Rand, kind string) genFile {
 		}
 		var fields []string
 		for c := 0; c < n; c++ {
-			f := csvField(rng, delim, true)
+			f := csvField(rng, delim, rows <= 50)
+			if rows > 50 && len(f) > 3 {
+				f = f[:1]
+			}
 			if n == 1 && f == "" {
 				f = "a"
 			}
@@ -222,12 +235,23 @@ func linetraceMain(args []string) int {
 		default:
 			gf = genNd(rng, g)
 		}
+		long := fi%25 == 24 && fi%3 != 2
+		if long {
+			gf = genTableN(rng, gf.kind, 90+rng.Intn(90))
+		}
 		if len(gf.bytes) == 0 {
 			continue
 		}
 		limits := []int64{0, int64(len(gf.bytes) + 1)}
-		for c := 1; c <= len(gf.bytes); c++ {
-			limits = append(limits, int64(c))
+		if long {
+			limits = append(limits, 3072, int64(len(gf.bytes)))
+			for c := 0; c < 10; c++ {
+				limits = append(limits, int64(len(gf.bytes)/2+rng.Intn(len(gf.bytes)/2)))
+			}
+		} else {
+			for c := 1; c <= len(gf.bytes); c++ {
+				limits = append(limits, int64(c))
+			}
 		}
 		for _, lim := range limits {
 			mimetype.SetLimit(uint32(lim))
